@@ -1,0 +1,8 @@
+//go:build !verif
+
+package bondgo
+
+func verifPoint(point string) {}
+
+// VerifPoint is a no-op without the verif build tag.
+func VerifPoint(point string) {}
